@@ -67,6 +67,7 @@ class Variant:
         self.statics = {}    # qualified name (+ local_of) -> static var dict
         self.records = {}    # name -> record dict
         self.asm_units = []  # unit dicts of .s files
+        self.header_decl = {}  # usr -> header file (under include/) that declares it
         self.units = []
         for u in prog.units[cfg]:
             if u["target"] not in self.targets:
@@ -79,6 +80,8 @@ class Variant:
             for fd in data["functions"]:
                 f = Function(fd, u, cfg, u["target"])
                 usr = fd["usr"]
+                if fd["file"].startswith("include/"):
+                    self.header_decl.setdefault(usr, fd["file"])
                 if fd["defined"]:
                     # header-defined inline functions recur in several TUs: keep the first
                     self.defs.setdefault(usr, f)
@@ -100,6 +103,7 @@ class Variant:
             if f.d["q"] != f.d["name"]:
                 self.by_name[f.d["q"]].append(usr)
         self._callgraph = None
+        self._noreturn = None
 
     # ---- lookup ----
     def fn(self, name, required=True):
@@ -150,6 +154,32 @@ class Variant:
                 g[usr] = out
             self._callgraph = g
         return self._callgraph
+
+    @property
+    def noreturn(self):
+        """usrs of defined functions none of whose paths return (every path ends in abort/exit/throw)"""
+        if self._noreturn is None:
+            from .symexec import Exec, Hooks, NORETURN_NAMES
+            self._noreturn = set()
+            cands = []
+            for usr, f in self.defs.items():
+                names = {c.get("callee") for c in calls_in(f.d.get("body"))}
+                if names & NORETURN_NAMES or any(n.get("k") == "throw" for n in walk(f.d.get("body"))):
+                    cands.append(f)
+            changed = True
+            while changed:
+                changed = False
+                for f in cands:
+                    if f.usr in self._noreturn:
+                        continue
+                    try:
+                        eff, st = Exec(self, f, hooks=Hooks()).run()
+                    except RecursionError:
+                        continue
+                    if st == "exit":
+                        self._noreturn.add(f.usr)
+                        changed = True
+        return self._noreturn
 
     def reachable(self, roots):
         """usr set reachable from the given root usrs (roots included)."""
